@@ -122,8 +122,8 @@ SGP = 'src/alignment/segments.py::'
 RSV = 'src/alignment/segment_with_resolved_conflicts.py::AlignmentSegmentConflictResolver.'
 CONFLICT_CHAIN = [SGP + 'AlignmentSegment.__sub__#segment', SGP + 'AlignmentSegment.__sub__#positions',
                   SGP + '_SegmentPairWithConflict.__removeWholeConflictingSubsegmentWithWorseScore',
-                  SGP + '_SegmentPairWithConflict.__trimSegmentsAtOptimalPosition', SGP + '_SegmentPairWithConflict.resolveConflict',
-                  SGP + '_SegmentPairWithNoConflict.resolveConflict', SGP + 'AlignmentSegment.slice#partial', SGP + '_SegmentPairWithConflict.create',
+                  SGP + '_SegmentPairWithConflict.__trimSegmentsAtOptimalPosition', SGP + '_SegmentPairWithConflict.__trimSegmentsAtOptimalPosition#geometry',
+                  SGP + '_SegmentPairWithConflict.resolveConflict', SGP + '_SegmentPairWithNoConflict.resolveConflict', SGP + 'AlignmentSegment.slice#partial', SGP + '_SegmentPairWithConflict.create',
                   SGP + 'AlignmentSegment.checkForConflicts', SGP + 'EmptyAlignmentSegment.checkForConflicts',
                   RSV + '__pairAndResolveConflicts', RSV + 'resolveConflicts']
 PLANS['C15'] = Plan(
@@ -213,6 +213,7 @@ PLANS['C04'] = Plan(
             'src/alignment/alignment_position_scorer.py::AlignmentPositionScorer.getScoredPositions', AR + 'create',
             'src/workflow_coordinator_factory.py::WorkflowCoordinatorFactory.create', 'src/alignment/aligner.py::Aligner.getSegments',
             'src/alignment/segments.py::_SegmentPairWithConflict.__trimSegmentsAtOptimalPosition',
+            'src/alignment/segments.py::_SegmentPairWithConflict.__trimSegmentsAtOptimalPosition#geometry',
             'src/alignment/aligner.py::Aligner.align#peaks', 'src/alignment/aligner.py::Aligner.align#peak', RSV + 'resolveConflicts',
             SGP + 'AlignmentSegment.__sub__#segment', SGP + 'AlignmentSegment.__sub__#positions'], 'other',
     "Deductive links: a candidate's offset is query position - (reference position - seed) and within maxDistance (__getAlignedPairs), a pair scores sp - dp*|offset| and an unpaired label su (getScoredPosition x2, getScoredPositions element-wise), a segment's score is "
